@@ -48,7 +48,7 @@ def run(ctx, rep):
         if not cfg["minimization"]:
             return
         # the dual run: maximise -f, target -v
-        dual = dict(cfg, minimization=False, scale=-cfg["scale"])
+        dual = dict(cfg, minimization=False, scale=-cfg["scale"], offset=-cfg.get("offset", 0.0))
         if cfg.get("optimal_value") is not None:
             dual["optimal_value"] = -cfg["optimal_value"]
         if "_uniset" in tr:
